@@ -17,6 +17,8 @@
 #include <mutex>
 #include <netinet/in.h>
 #include <poll.h>
+#include <set>
+#include <shared_mutex>
 #include <sstream>
 #include <string>
 #include <sys/socket.h>
@@ -185,6 +187,108 @@ struct Case
     return it == peerByPort.end() ? ("?" + std::to_string(a.port)) : std::to_string(it->second);
   }
 };
+
+// Burst: one peer sends n distinct datagrams to one listener while the engine's I/O thread is held inside the first data
+// callback, then nothing more.  Every datagram must arrive as exactly one data event on one session WITHOUT any further
+// traffic (an edge-triggered listener gets no second readiness report for data that is already queued).
+static std::string runBurst(int n, bool edgeTriggered)
+{
+  TransportConfig cfg;
+  cfg.protocol = Protocol::UDP;
+  cfg.useEdgeTriggered = edgeTriggered;
+  cfg.idleTimeout = std::chrono::seconds(3600);
+  cfg.gcInterval = std::chrono::seconds(3600);
+  UdpEngine tx{cfg};
+  std::mutex m;
+  std::condition_variable cv;
+  bool release = false, holding = false;
+  std::map<std::string, int> seen;
+  std::set<SessionId> sids;
+  int accepts = 0;
+  detail::EngineBase::Callbacks cbs{};
+  cbs.onAccept = [&](SessionId, const TransportAddress &) { std::lock_guard<std::mutex> g(m); accepts++; };
+  cbs.onConnect = [&](SessionId, const TransportAddress &) {};
+  cbs.onClose = [&](SessionId, const TransportErrorInfo &) {};
+  cbs.onError = [&](TransportError, const std::string &) {};
+  cbs.onData = [&](SessionId sid, iora::core::BufferView bv, std::chrono::steady_clock::time_point)
+  {
+    std::unique_lock<std::mutex> lk(m);
+    seen[std::string(reinterpret_cast<const char *>(bv.data()), bv.size())]++;
+    sids.insert(sid);
+    if (!holding)
+    {
+      holding = true;
+      cv.notify_all();
+      cv.wait_for(lk, std::chrono::seconds(5), [&] { return release; });   // the I/O thread is held here
+    }
+  };
+  tx.setCallbacks(std::move(cbs));
+  if (!tx.start().isOk()) return "STARTFAIL";
+  auto r = tx.addListener("127.0.0.1", 0, TlsMode::None);
+  if (!r.isOk()) { tx.stop(); return "LISTENFAIL"; }
+  std::uint16_t lport = 0;
+  for (int i = 0; i < 2000 && lport == 0; ++i)
+  {
+    {
+      std::shared_lock<std::shared_mutex> rl(tx._sessionRwMutex);
+      auto it = tx._listeners.find(r.value());
+      if (it != tx._listeners.end())
+      {
+        sockaddr_in sa{};
+        socklen_t l = sizeof(sa);
+        if (::getsockname(it->second->fd, reinterpret_cast<sockaddr *>(&sa), &l) == 0) lport = ntohs(sa.sin_port);
+      }
+    }
+    if (lport == 0) std::this_thread::sleep_for(std::chrono::milliseconds(1));
+  }
+  if (lport == 0) { tx.stop(); return "LISTENFAIL"; }
+  std::uint16_t pp = 0;
+  int pfd = udpSocket(pp);
+  sockaddr_in to{};
+  to.sin_family = AF_INET;
+  to.sin_port = htons(lport);
+  to.sin_addr.s_addr = htonl(INADDR_LOOPBACK);
+  auto sendOne = [&](int i)
+  {
+    char buf[16];
+    int len = std::snprintf(buf, sizeof buf, "dg%06d", i);
+    ::sendto(pfd, buf, static_cast<size_t>(len), 0, reinterpret_cast<sockaddr *>(&to), sizeof to);
+  };
+  sendOne(0);
+  {
+    std::unique_lock<std::mutex> lk(m);
+    cv.wait_for(lk, std::chrono::seconds(5), [&] { return holding; });
+  }
+  for (int i = 1; i < n; ++i) sendOne(i);                   // queue up behind the held I/O thread
+  std::this_thread::sleep_for(std::chrono::milliseconds(30));
+  {
+    std::lock_guard<std::mutex> g(m);
+    release = true;
+  }
+  cv.notify_all();
+  // nothing more is sent: wait until the count stops growing
+  std::size_t last = 0;
+  for (int i = 0; i < 100; ++i)
+  {
+    std::this_thread::sleep_for(std::chrono::milliseconds(20));
+    std::lock_guard<std::mutex> g(m);
+    if (seen.size() == static_cast<std::size_t>(n)) break;
+    if (i > 25 && seen.size() == last) break;
+    last = seen.size();
+  }
+  int delivered, dup = 0;
+  std::size_t nsids;
+  {
+    std::lock_guard<std::mutex> g(m);
+    delivered = static_cast<int>(seen.size());
+    for (auto &kv : seen) if (kv.second > 1) dup++;
+    nsids = sids.size();
+  }
+  tx.stop();
+  ::close(pfd);
+  return "B delivered=" + std::to_string(delivered) + "/" + std::to_string(n) + " dup=" + std::to_string(dup) +
+         " sessions=" + std::to_string(nsids) + " accepts=" + std::to_string(accepts);
+}
 
 static std::string runCase(const std::string &cfgs, const std::vector<std::string> &ops)
 {
@@ -515,6 +619,7 @@ int main(int argc, char **argv)
     try
     {
       if (p[0] == "U" && p.size() >= 3) r = runCase(p[1], split(p[2], ';'));
+      else if (p[0] == "B" && p.size() >= 3) r = runBurst(std::stoi(p[1]), p[2] == "1");
       else r = "BADCASE";
     }
     catch (const std::exception &e)
